@@ -8,9 +8,17 @@ Correspondence (Corr/C07.v, model Model/Descent.v executed at Qops, exact ration
     non-increasing;
   * least-squares blocks of tensor_ring_als / coupled_matrix_tensor_3d_factorization (tl.lstsq captured) and of the
     CP / Tucker regressors: normal equations on the implementation's solution, objective not above the previous iterate's.
+  * certificates of the spectral oracles (round 5): the matrix handed to the SVD of a HOOI block with an independent eigen-decomposition
+    of Y Y' (SpecCert), the cross product X_i M_i' of a PARAFAC2 projection with an independent thin SVD (ProcCert): contract of
+    C07_ky_fan_bound / C07_procrustes_bound and attained value of the implementation's factor;
+  * the error parafac reports for the iterate it hands to the callback (CPReport): model formula == exact squared error == reported^2.
+Static tie (corr:C07-static, harness/props/C07_ast.py): the reported-error formulas and line-search acceptance tests are re-extracted from
+the current sources with `ast`, translated to Gallina and re-checked by coqc against the reference forms of Proofs/DescentProofsStatic.v.
 Predicates (transcriptions of C07_*_history_monotone on the implementation's outputs): every reported error history and
 every objective history RECOMPUTED from the iterates (callbacks where the algorithm has one, prefix runs with the same seed
-otherwise) is non-increasing up to 1e-6 in relative-error units; every captured block objective does not increase."""
+otherwise) is non-increasing up to 1e-6 in relative-error units; every captured block objective does not increase; the reported error
+of every sweep IS the relative error of the iterate of that sweep (parafac, nn-HALS without sparsity, tucker, parafac2, TR-ALS, CMTF);
+every HOOI block is handed the unfolding of the tensor projected on the CURRENT other factors (through Y Y')."""
 import math, random, sys
 import numpy as np
 from harness import common as C
@@ -561,9 +569,12 @@ def reported_is_objective(ctx, entry, inputs, X, iterates, errs):
             ctx.chk.finding(entry, dict(inputs, iteration=i), f"reported error {float(e)!r} is not the error of the iterate handed to the callback: "
                             f"(reported * ||X||)^2 = {float(e) ** 2 * n2!r}, ||X - [[w; A..]]||^2 = {sq!r}", "C07_cp_reported_is_sqerr",
                             observed=float(e) ** 2 * n2, expected=sq)
-            return
+            bad = i
+            break
+    else:
+        bad = None
     if X.size <= 40 and fs[0].shape[1] <= 3:
-        i = ctx.rng.randrange(len(errs))
+        i = ctx.rng.randrange(len(errs)) if bad is None else bad
         wts, fs = iterates[i + 1]
         rank = fs[0].shape[1]
         ctx.add_case("rep", rep_case_lit, dict(X=X, w=np.ones(rank) if wts is None else wts, facs=fs, k=X.ndim - 1, rank=rank, rel=float(errs[i])),
@@ -858,8 +869,30 @@ def run_tucker(ctx, n_runs):
         # identity on the modes that are not decomposed), core recomputed by the implementation from the factors after the block
         m = len(modes)
         off = len(cap.hooi_svds) - 8 * m
+        stale = None
+        if off in (0, m):
+            # EVERY block of every sweep after the first: the matrix handed to the SVD is the mode-k unfolding of X projected on the CURRENT
+            # other factors (compared through Y Y', which is what the block and the objective depend on)
+            ans = lambda tt, jj: cap.hooi_svds[off + tt * m + jj]["U"]
+            for tt in range(1, 8):
+                for jj in range(m):
+                    fb_ = [ans(tt, q) if q < jj else ans(tt - 1, q) for q in range(m)]
+                    if not all(f.shape == (shape[modes[q]], ranks[q]) for q, f in enumerate(fb_)):
+                        continue
+                    T = X
+                    for q in range(m):
+                        if q != jj:
+                            T = np.moveaxis(np.tensordot(fb_[q].T, T, axes=(1, modes[q])), 0, modes[q])
+                    Yexp = np.moveaxis(T, modes[jj], 0).reshape(shape[modes[jj]], -1)
+                    Yimp = cap.hooi_svds[off + tt * m + jj]["Y"]
+                    ctx.py_blocks += 1
+                    if Yimp.shape[0] != Yexp.shape[0] or not np.allclose(Yimp @ Yimp.T, Yexp @ Yexp.T, rtol=0, atol=1e-9 * (float(np.sum(Yexp * Yexp)) + 1e-300)):
+                        if stale is None:
+                            stale = (tt, jj)
+                            chk.finding(entry, dict(inputs, sweep=tt, block=jj), "the matrix handed to the SVD of a HOOI block is not the unfolding of the tensor projected on the "
+                                        "current other factors (Gram matrices differ)", "C07_core_norm_unfolding", observed=float(np.max(np.abs(Yimp @ Yimp.T - Yexp @ Yexp.T))) if Yimp.shape[0] == Yexp.shape[0] else "shape", expected=0.0)
         if off in (0, m) and X.size <= 64:
-            t, j = rng.randrange(1, 8), rng.randrange(m)
+            t, j = stale if stale is not None else (rng.randrange(1, 8), rng.randrange(m))
             ans = lambda tt, jj: cap.hooi_svds[off + tt * m + jj]["U"]
             fb = [ans(t, jj) if jj < j else ans(t - 1, jj) for jj in range(m)]
             fa = [ans(t, jj) if jj <= j else ans(t - 1, jj) for jj in range(m)]
@@ -1270,6 +1303,26 @@ def run_regressors(ctx, n_runs):
                     ctx.add_case("ls", ls_case_lit, dict(A=A, Y=Ym, X=Xm, prev=Xp, lam=reg), dict(entry=entry, inputs=dict(inputs, block=j)))
 
 
+def static_tie(chk):
+    """corr:C07-static: the reported-error formulas and the line-search acceptance tests are re-extracted from the CURRENT sources (ast),
+    translated to Gallina and the linking theorems re-checked by coqc against the regenerated terms; fail closed"""
+    import os, shutil, subprocess
+    from harness.props import C07_ast as C07ast
+    lines, info, bad = C07ast.extract(C.REPO)
+    for b in bad:
+        chk.broken.append({"what": "corr:C07-static broken tie (source construct not translatable / changed)", "detail": b})
+    d = os.path.join(C.BUILD, "cases", "C07", f"static_{os.getpid()}")
+    shutil.rmtree(d, ignore_errors=True); os.makedirs(d, exist_ok=True)
+    fn = os.path.join(d, "Static.v")
+    with open(fn, "w") as f:
+        f.write(C07ast.coq_file(lines, info))
+    p = subprocess.run(["timeout", "300", "coqc", "-w", "none", "-R", os.path.join(C.COQ, "theories"), "TLV", fn], capture_output=True, text=True, cwd=d)
+    chk.checker_cmds.append("coqc on generated build/cases/C07/static_*/Static.v: formulas regenerated from the Python sources by harness/props/C07_ast.py")
+    chk.cov["static_tie"] = dict(extracted=info, untranslatable=bad, coqc_rc=p.returncode)
+    if p.returncode != 0:
+        chk.broken.append({"what": "corr:C07-static: a theorem does not hold for the formula regenerated from the current source", "detail": (p.stderr or p.stdout)[-1500:]})
+
+
 def PLAN(quick):
     return [(run_corpus, 0), (run_parafac, 80 if quick else 400), (run_nn_hals, 18 if quick else 120), (run_hals_nnls, 36 if quick else 300),
             (run_tucker, 18 if quick else 120), (run_parafac2, 24 if quick else 72), (run_p2_linestep, 30 if quick else 120), (run_tr_als, 12 if quick else 80),
@@ -1289,6 +1342,7 @@ def run(chk):
     for fn, n in PLAN(quick):
         fn(ctx, n)
     ctx.select()
+    static_tie(chk)
     failing, n_eval, broken = C.run_case_shards("C07", HEADER, "case", ctx.cases, shard=ctx.shard_size, timeout=900)
     chk.checker_cmds.append("coqc (vm_compute, Qops) on generated build/cases/C07/*.v: Corr.C07.failing")
     chk.cov["traces_validated_against_impl"] = n_eval
